@@ -30,7 +30,8 @@ def escPass : List Char → Bool → List Char
 
 def isDigit (c : Char) : Bool := decide ('0' ≤ c) && decide (c ≤ '9')
 
-/-- text after a `{`: the body of `[0-9]+(?:,[0-9]+)?` if it is directly followed by `}` -/
+/-- text after a `{`: the body of `[0-9]+(?:,[0-9]*)?` if it is directly followed by `}`
+(`{3}`, `{3,6}` and the open-ended `{3,}`) -/
 def matchQuant (rest : List Char) : Option (List Char) :=
   let d1 := rest.takeWhile isDigit
   let after1 := rest.dropWhile isDigit
@@ -39,7 +40,6 @@ def matchQuant (rest : List Char) : Option (List Char) :=
   | '}' :: _ => some d1
   | ',' :: after2 =>
     let d2 := after2.takeWhile isDigit
-    if d2.isEmpty then none else
     match after2.dropWhile isDigit with
     | '}' :: _ => some (d1 ++ ',' :: d2)
     | _ => none
